@@ -341,3 +341,37 @@ mod f17_recv_padding {
         assert!(res.is_ok(), "receiver panicked");
     }
 }
+
+/// KNOWN FINDING (not fixed) C01/C11: length types wider than usize (u128) panic in stavec's len()/capacity()
+/// (`to_usize().unwrap()`), reached from FlatVec/FlatString::validate_unchecked before any check.
+/// Not repairable inside /repo in a small patch: every operation of such a vector goes through the same stavec calls.
+/// This test asserts that the defect is STILL PRESENT (it fails when somebody fixes it: then update known_findings.json).
+#[cfg(test)]
+mod known_f02_len_wider_than_usize {
+    use super::common::*;
+    #[test]
+    fn validate_panics_for_u128_length() {
+        let b = aligned(&[0xffu8; 32], 16);
+        let r = std::panic::catch_unwind(|| FlatVec::<u8, u128>::validate(&b).is_err());
+        assert!(r.is_err(), "defect no longer reproduces: validate returned {:?}", r);
+    }
+}
+
+/// KNOWN FINDING (not fixed) C18: generated initialisers are one-pass; when a trailing field's emplacer fails after the
+/// tag and the leading fields of the new variant were written, the target keeps the new tag over the old tail and may be invalid.
+/// Asserts that the defect is STILL PRESENT.
+#[cfg(test)]
+mod known_f18_composite_one_pass {
+    use super::common::*;
+    #[flat(sized = false)]
+    enum UE { A, B(u32, FlatVec<u8, u16>), C(FlatVec<u8, u8>) }
+    #[test]
+    fn failed_assign_of_composite_can_leave_invalid_value() {
+        let mut b = AlignedBytes::new(12, 4);
+        b.iter_mut().for_each(|x| *x = 0);
+        let v = UE::new_in_place(&mut b, UEInitC(flat_vec![0xffu8; 7])).unwrap();
+        let e = v.assign_in_place(UEInitB(1, flat_vec![9u8; 5])).err().unwrap();
+        assert_eq!(e.kind, ErrorKind::InsufficientSize);
+        assert!(UE::validate(&b).is_err(), "defect no longer reproduces");
+    }
+}
